@@ -2,7 +2,7 @@
    (restart without re-committing the interrupted store-point head), and the checked instance with the repair. *)
 From Coq Require Import List NArith Bool Lia.
 From Verif Require Import Crash.Model Crash.ProofsStore Crash.ProofsInv Crash.ProofsImport Crash.ProofsCrash Crash.Examples
-  Crash.ProofsEqv Crash.ProofsShape Crash.ProofsResumeAll.
+  Crash.ProofsEqv Crash.ProofsShape Crash.ProofsResumeAll Crash.ProofsOrphans.
 Import ListNotations.
 Open Scope N_scope.
 
@@ -83,3 +83,16 @@ Lemma ex_finalized_moves :
   finalized ex_cfg ex_s0 = bid 0 7 /\ finalized ex_cfg (run ex_cfg ex_s0 (firstn 5 ex_hist)) = bid 2 2 /\
   finalized ex_cfg (run ex_cfg ex_s0 ex_hist) = bid 4 4.
 Proof. vm_compute. auto. Qed.
+
+Lemma ex_inv3 : Inv3 ex_s0.
+Proof. apply genesis_inv3; reflexivity. Qed.
+
+(* an orphan exists in the example: at cut 9 (account and index nodes of block 3 written, its block bulk not) the node
+   written under version (3, 0) is in the store, block 3 is not *)
+Lemma ex_orphan :
+  has (crash ex_cfg ex_s0 ex_hist 9) (KNode 0 31 3 0) = true /\ stored (crash ex_cfg ex_s0 ex_hist 9) (bid 3 3) = false /\
+  stored (crash ex_cfg ex_s0 ex_hist 9) (bid 2 2) = true.
+Proof. vm_compute. auto. Qed.
+
+Lemma ex_inv4 : Inv4 ex_s0.
+Proof. apply genesis_inv4; reflexivity. Qed.
